@@ -80,13 +80,19 @@ def run(ids):
         assert sh(f'git -C /repo apply {patch}').returncode == 0, f'{sid} does not apply'
         try:
             res = {}
-            for pr in props:
+
+            def check_one(pr):
+                # the 20 checks only read /repo: they run side by side on the patched tree
                 r = subprocess.run(['python3', '-m', 'cardverif', 'check', pr], cwd=V, capture_output=True, text=True,
                                    env={**os.environ, 'CARDVERIF_NOEVIDENCE': '1'})
-                if r.returncode != 0:
-                    obs = sorted({l.split()[1] for l in r.stdout.splitlines() if l.startswith('REFUTED ')})
-                    und = sorted({l.split('obligation=')[1].split()[0] for l in r.stdout.splitlines() if l.startswith('UNDECIDED ')})
-                    res[pr] = {'exit': r.returncode, 'refuted': obs, 'undecided': und}
+                return pr, r
+            from concurrent.futures import ThreadPoolExecutor
+            with ThreadPoolExecutor(14) as ex:
+                for pr, r in ex.map(check_one, props):
+                    if r.returncode != 0:
+                        obs = sorted({l.split()[1] for l in r.stdout.splitlines() if l.startswith('REFUTED ')})
+                        und = sorted({l.split('obligation=')[1].split()[0] for l in r.stdout.splitlines() if l.startswith('UNDECIDED ')})
+                        res[pr] = {'exit': r.returncode, 'refuted': obs, 'undecided': und}
             results[sid] = res
             print(sid, json.dumps(res))
         finally:
